@@ -1,0 +1,131 @@
+//go:build verif
+
+package distribution
+
+// Contracts for the deductive checker in /verif (comment-only; compiled only with -tags verif).
+// C05-run (agent AA): the entry points of the distribution precompile - Run (dispatch, entry conditions of the method contracts, write
+// protection, flush, gas charging), IsTransaction, RequiredGas. The method contracts (tags c04, c04ap, c16d) are USED here.
+
+/*@
+specfunc DisIsTx(n string) bool = n == "claimRewards" || n == "setWithdrawAddress" || n == "withdrawDelegatorRewards" || n == "withdrawValidatorCommission"
+specfunc DisIsQuery(n string) bool = n == "validatorDistributionInfo" || n == "validatorOutstandingRewards" || n == "validatorCommission" || n == "validatorSlashes" || n == "delegationRewards" || n == "delegationTotalRewards" || n == "delegatorValidators" || n == "delegatorWithdrawAddress"
+
+// C05 / C04: every method whose contract changes state (`modifies cstate` / the grant store) must be classified as a transaction,
+// otherwise it runs in read-only frames (STATICCALL) - one clause per such method, so that a missing case is named
+func (Precompile).IsTransaction
+    ensures c05_claimRewards: methodName == "claimRewards" ==> result
+    ensures c05_setWithdrawAddress: methodName == "setWithdrawAddress" ==> result
+    ensures c05_withdrawDelegatorRewards: methodName == "withdrawDelegatorRewards" ==> result
+    ensures c05_withdrawValidatorCommission: methodName == "withdrawValidatorCommission" ==> result
+    ensures c05_validatorDistributionInfo: methodName == "validatorDistributionInfo" ==> result
+    ensures c05_delegationRewards: methodName == "delegationRewards" ==> result
+    ensures c05_delegationTotalRewards: methodName == "delegationTotalRewards" ==> result
+    ensures exact: result == DisIsTx(methodName)
+
+// RequiredGas (called by vm.runPrecompiledContract with the raw call data, before Run). FINDING AA1: `input[:4]` panics on call data
+// shorter than four bytes - nothing at the call site guarantees them
+func (Precompile).RequiredGas
+    requires golen: 0 <= len(input) && len(input) <= 9223372036854775807
+    ensures unknown: ret(MethodById, 1, 1) != nil ==> result == 0
+    ensures tx: ret(MethodById, 1, 1) == nil && DisIsTx(ret(MethodById, 1, 0).Name) ==> result == p.KvGasConfig.WriteCostFlat + p.KvGasConfig.WriteCostPerByte * (len(input) - 4)
+    ensures query: ret(MethodById, 1, 1) == nil && !DisIsTx(ret(MethodById, 1, 0).Name) ==> result == p.KvGasConfig.ReadCostFlat + p.KvGasConfig.ReadCostPerByte * (len(input) - 4)
+
+// every method consumes SDK gas on the meter of the context it is given (a larger frame: nothing to re-verify)
+extend func (Precompile).ClaimRewards
+    modifies gasw
+extend func (Precompile).SetWithdrawAddress
+    modifies gasw
+extend func (Precompile).WithdrawDelegatorRewards
+    modifies gasw
+extend func (Precompile).WithdrawValidatorCommission
+    modifies gasw
+extend func (Precompile).ValidatorDistributionInfo
+    modifies gasw
+extend func (Precompile).ValidatorOutstandingRewards
+    modifies gasw
+extend func (Precompile).ValidatorCommission
+    modifies gasw
+extend func (Precompile).ValidatorSlashes
+    modifies gasw
+extend func (Precompile).DelegationRewards
+    modifies gasw
+extend func (Precompile).DelegationTotalRewards
+    modifies gasw
+extend func (Precompile).DelegatorValidators
+    modifies gasw
+extend func (Precompile).DelegatorWithdrawAddress
+    modifies gasw
+
+// ---- Run. Preconditions: facts of the call chain vm.EVM.Call / CallCode / DelegateCall / StaticCall -> runPrecompiledContract -> Run,
+// of NewPrecompile (keepers set) and of the embedded abi.json. `value`: see FINDING AA2 (RunSetup).
+func (Precompile).Run
+    requires wf: evm != nil && contract != nil && p.stakingKeeper.Keeper != nil
+    requires sdb: isdyn(evm.StateDB, *SDB) ==> dyn(evm.StateDB, *SDB) != nil && ctx_height(dyn(evm.StateDB, *SDB).ctx) >= 0
+    requires golen: len(contract.Input) >= 0
+    requires value: len(contract.Input) == 0 ==> contract.value != nil
+    requires abi_events: len(p.ABI.Events["ClaimRewards"].Inputs) == 2 && len(p.ABI.Events["SetWithdrawerAddress"].Inputs) == 2 && len(p.ABI.Events["WithdrawDelegatorRewards"].Inputs) == 3 && len(p.ABI.Events["WithdrawValidatorCommission"].Inputs) == 2
+    requires abi_plain: p.ABI.Fallback.Type != 1 && p.ABI.Receive.Type != 2
+    // abi.json declares exactly the methods the switch knows (OBSERVATION AA3: the switch has no default case)
+    requires abi_methods: forall n string :: has(p.ABI.Methods, n) ==> DisIsTx(n) || DisIsQuery(n)
+    let sdb = dyn(evm.StateDB, *SDB)
+    let setup_ok = ret(RunSetup, 1, 5) == nil
+    let rctx = ret(RunSetup, 1, 0)
+    let m = ret(RunSetup, 1, 2)
+    let name = ret(RunSetup, 1, 2).Name
+    let gas0 = ret(RunSetup, 1, 3)
+    let rargs = ret(RunSetup, 1, 4)
+    let meter = ctx_gasmeter(rctx)
+    let caller = old(contract.CallerAddress)
+    let flushed = sdb_flush(old(cstate), sdb_pending)
+    modifies cstate, g_kind, g_exp, g_limited, g_limit, g_ta, sdb_delta, gasw, gas_base, bank_bal, bank_supply, sdb_flushes, *contract
+    call HandleGasError requires site: contract != nil && err != nil && gas_consumed(ctx_gasmeter(ctx)) >= initialGas
+    // (e) the pending StateDB changes are written to the store once, before the method runs
+    call Commit requires once: s == sdb && sdb_flushes == old(sdb_flushes) && cstate == old(cstate)
+    // (a) dispatch: a method runs only under its own name
+    call Precompile.ClaimRewards requires named: method.Name == "claimRewards"
+    call Precompile.SetWithdrawAddress requires named: method.Name == "setWithdrawAddress"
+    call Precompile.WithdrawDelegatorRewards requires named: method.Name == "withdrawDelegatorRewards"
+    call Precompile.WithdrawValidatorCommission requires named: method.Name == "withdrawValidatorCommission"
+    call Precompile.ValidatorDistributionInfo requires named: method.Name == "validatorDistributionInfo"
+    call Precompile.ValidatorOutstandingRewards requires named: method.Name == "validatorOutstandingRewards"
+    call Precompile.ValidatorCommission requires named: method.Name == "validatorCommission"
+    call Precompile.ValidatorSlashes requires named: method.Name == "validatorSlashes"
+    call Precompile.DelegationRewards requires named: method.Name == "delegationRewards"
+    call Precompile.DelegationTotalRewards requires named: method.Name == "delegationTotalRewards"
+    call Precompile.DelegatorValidators requires named: method.Name == "delegatorValidators"
+    call Precompile.DelegatorWithdrawAddress requires named: method.Name == "delegatorWithdrawAddress"
+    // (b) with the transaction signer as origin, RunSetup's context / method / arguments, the frame's contract, the EVM's StateDB
+    call Precompile.ClaimRewards requires entry: origin == evm.Origin && ctx == rctx && method == m && args == rargs && contract == old(contract) && isdyn(stateDB, *SDB) && dyn(stateDB, *SDB) == sdb
+    call Precompile.SetWithdrawAddress requires entry: origin == evm.Origin && ctx == rctx && method == m && args == rargs && contract == old(contract) && isdyn(stateDB, *SDB) && dyn(stateDB, *SDB) == sdb
+    call Precompile.WithdrawDelegatorRewards requires entry: origin == evm.Origin && ctx == rctx && method == m && args == rargs && contract == old(contract) && isdyn(stateDB, *SDB) && dyn(stateDB, *SDB) == sdb
+    call Precompile.WithdrawValidatorCommission requires entry: origin == evm.Origin && ctx == rctx && method == m && args == rargs && contract == old(contract) && isdyn(stateDB, *SDB) && dyn(stateDB, *SDB) == sdb
+    call Precompile.ValidatorDistributionInfo requires entry: ctx == rctx && method == m && input == rargs
+    call Precompile.ValidatorOutstandingRewards requires entry: ctx == rctx && method == m && input == rargs
+    call Precompile.ValidatorCommission requires entry: ctx == rctx && method == m && input == rargs
+    call Precompile.ValidatorSlashes requires entry: ctx == rctx && method == m && input == rargs
+    call Precompile.DelegationRewards requires entry: ctx == rctx && method == m && input == rargs
+    call Precompile.DelegationTotalRewards requires entry: ctx == rctx && method == m && input == rargs
+    call Precompile.DelegatorValidators requires entry: ctx == rctx && method == m && input == rargs
+    call Precompile.DelegatorWithdrawAddress requires entry: ctx == rctx && method == m && input == rargs
+    // (c) C05 / C04: no state-changing method runs in a read-only frame
+    call Precompile.ClaimRewards requires c05_writable: !readOnly
+    call Precompile.SetWithdrawAddress requires c05_writable: !readOnly
+    call Precompile.WithdrawDelegatorRewards requires c05_writable: !readOnly
+    call Precompile.WithdrawValidatorCommission requires c05_writable: !readOnly
+    call Precompile.ValidatorDistributionInfo requires c05_writable: !readOnly
+    call Precompile.DelegationRewards requires c05_writable: !readOnly
+    call Precompile.DelegationTotalRewards requires c05_writable: !readOnly
+    ensures setup_refused: !setup_ok ==> result.1 != nil && len(result.0) == 0 && cstate == old(cstate) && sdb_flushes == old(sdb_flushes) && contract.Gas == old(contract.Gas)
+            && g_kind == old(g_kind) && g_limit == old(g_limit) && sdb_delta == old(sdb_delta)
+    ensures c05_readonly: readOnly && setup_ok ==> !DisIsTx(name)
+    ensures unknown_name: setup_ok && !DisIsTx(name) && !DisIsQuery(name) ==> result.1 != nil
+    ensures flushed_once: setup_ok ==> sdb_flushes == old(sdb_flushes) + 1
+    ensures gas_charged: result.1 == nil ==> contract.Gas == old(contract.Gas) - (gasw[meter] - gas0) && gasw[meter] - gas0 <= old(contract.Gas)
+    ensures out_of_gas: setup_ok && gasw[meter] - gas0 > old(contract.Gas) ==> result.1 != nil
+    ensures error_no_output: result.1 != nil ==> len(result.0) == 0 && contract.Gas == old(contract.Gas)
+    ensures contract_kept: contract.CallerAddress == old(contract.CallerAddress) && contract.Input == old(contract.Input) && contract.value == old(contract.value)
+    ensures query_frame: result.1 == nil && (name == "validatorOutstandingRewards" || name == "validatorCommission" || name == "validatorSlashes" || name == "delegatorValidators" || name == "delegatorWithdrawAddress") ==> cstate == flushed && sdb_delta == old(sdb_delta)
+    ensures grants_untouched: g_kind == old(g_kind) && g_exp == old(g_exp) && g_limited == old(g_limited) && g_limit == old(g_limit)
+    ensures q_delegation_rewards: result.1 == nil && name == "delegationRewards" ==> len(rargs) == 2 && isdyn(rargs[0], Address)
+    ensures q_total_rewards: result.1 == nil && name == "delegationTotalRewards" ==> len(rargs) == 1 && isdyn(rargs[0], Address)
+@*/
